@@ -920,6 +920,14 @@ class ProgGen:
         ch = self.seq_elt_choices(env)
         if not ch:
             return None
+        if elt_t == INT and self.mode == "callable" and r.random() < 0.2:
+            cands = [(n, c) for n, c in self.recs(env) if c in ("Jet", "Event")]
+            if cands:
+                n, c = r.choice(cands)
+                h = self.helper_of("seq:" + c, env)
+                if h:
+                    self.p.features.add("helper-call")
+                    return "%s(%s)" % (h, n)
         rec, e = r.choice(ch)
         b = self.binder(env)
         self.p.features.add("nested-op")
@@ -1038,8 +1046,8 @@ class ProgGen:
         if mode == "callable" and self.caps and r.random() < 0.05:
             p = r.choice(sorted(self.caps))
             self.p.features.add("parameter-hides-capture")
-        self.reserved = {p}
         projs = self.projections(p, item_t)
+        self.reserved = {p} if len(projs) > 1 else set()
         # the environment: projections are bound under generated aliases by textual substitution afterwards
         env, alias = [], {}
         for i, (text, t) in enumerate(projs):
